@@ -288,6 +288,17 @@ var kernelSpecs = []kernelSpec{
 		name: "handlerShapeGen", guards: "handlerShapeGuards", model: "Dirk.hSignAtts / Dirk.hMultisign (one response per entry, validation before the signer, `respond` after it)",
 		pkgLog: true, custom: transHandlerShape,
 	},
+	// ---- P20 (dispatch.go) ----
+	{
+		file: rrFile, fn: "runRules",
+		name: "dispatchTableGen", guards: "dispatchEntryGuards", model: "which of Dirk.onSign / onPropose / onAttest the endpoints Dirk.signGeneric, multisign / signProp / signAtt consult; Dirk.verdictRes",
+		pkgLog: true, custom: transDispatch,
+	},
+	{
+		file: rrFile, fn: rrBatchFn,
+		name: "dispatchBatchGen", guards: "dispatchBatchGuards", model: "Dirk.onAttestBatch as consulted by Dirk.rulesKeyed / Dirk.signAtts",
+		pkgLog: true, custom: transDispatchBatch,
+	},
 }
 
 var leanDomains = map[string]string{
@@ -1221,7 +1232,8 @@ func writeKernels(repo, dir string) {
 		"  services/signer/standard: the batch signing loop and the pre-check, with core/result.go and rules/service.go for the\n" +
 		"  enumerator values; services/ruler/golang/runner.go: RunRules and the head of runRules, with services/ruler/service.go\n" +
 		"  for the action constants; services/lister/standard/listaccounts.go; services/api/grpc/handlers/signer: the batch paths of\n" +
-		"  SignBeaconAttestations and Multisign);\n" +
+		"  SignBeaconAttestations and Multisign; services/ruler/golang/runner.go again: the per-entry dispatch of runRules and the\n" +
+		"  batch shortcut runRulesForMultipleBeaconAttestations);\n" +
 		"  Dirk/Props/KernelsEq.lean proves each definition\n" +
 		"  equal to the hand-written model function.  A kernel outside the translatable fragment appears as\n" +
 		"  `kernelUntranslatable_<name>` instead, and KernelsEq.lean does not build.\n-/\n" +
